@@ -161,3 +161,48 @@ def writer_campaign(tier: str, seed: int, *, sims=None, n_beh=None, hist_len=Non
         for i, v in verdicts.items():
             cases[i].verdict = v
     return cases, {"sim": sim_stats, "judge": jstats}
+
+
+def repo_test_traffic(tier: str, max_rows: int):
+    """Run the repository's own test suite on a scratch copy of the working tree with the recorder plugin and
+    return Cases for every stream pyjelly's serializers wrote (CCF's lesson: the tests drive traffic, their assertions are weak)."""
+    import json  # noqa: PLC0415
+    import os  # noqa: PLC0415
+    import shutil  # noqa: PLC0415
+    import subprocess  # noqa: PLC0415
+    import sys  # noqa: PLC0415
+
+    scratch = os.path.join(env.workdir(), "repo-copy")
+    subprocess.run(["rsync", "-a", "--exclude", ".git", "--exclude", "__pycache__", env.REPO + "/", scratch + "/"], check=True)
+    rec = os.path.join(env.workdir(), "recorded.json")
+    e = dict(os.environ, PYTHONPATH=f"{scratch}:{env.VERIF}", VERIF_RECORD_FILE=rec)
+    e[env.GUARD] = "1"
+    p = subprocess.run([sys.executable, "-m", "pytest", "-q", "-p", "no:cacheprovider", "-p", "harness.recorder_plugin", "--timeout=900", "-x", "-q"],
+                       cwd=scratch, env=e, capture_output=True, text=True, timeout=1200)
+    info = {"pytest_exit": p.returncode, "pytest_tail": p.stdout.strip().splitlines()[-1:] }
+    shutil.rmtree(scratch, ignore_errors=True)
+    if not os.path.exists(rec):
+        env.machinery_failure("recorder plugin wrote nothing:\n" + p.stdout[-800:] + p.stderr[-800:])
+    streams = json.load(open(rec))
+    os.unlink(rec)
+    cases, traces, rows_total = [], [], 0
+    for i, st in enumerate(sorted(streams, key=lambda s: sum(len(h) for h in s["frames"]))):
+        frames = [wire.dec_frame(bytes.fromhex(h)) for h in st["frames"]]
+        rows = terms.jrows_of_frames(frames)
+        if rows_total + len(rows) > max_rows:
+            keep = max(0, max_rows - rows_total)
+            if keep < 50:
+                continue
+            rows = rows[:keep]
+        rows_total += len(rows)
+        case = Case({"source": "repository-test-suite", "test": st["test"].split("[")[0], "delimited": st["delimited"]}, [], mode="none")
+        case.replay = {"test": st["test"], "frames_hex": st["frames"][:20]}
+        case.frames = frames
+        cases.append(case)
+        traces.append({"id": len(cases) - 1, "rows": rows, "mode": "none", "exp": [], "prefix": True})
+    verdicts = tlc.judge(traces) if traces else {"__stats__": {}}
+    st_ = verdicts.pop("__stats__")
+    for i, v in verdicts.items():
+        cases[i].verdict = v
+    info.update({"streams_recorded": len(streams), "streams_judged": len(cases), "rows_judged": rows_total, "judge": st_})
+    return cases, info
